@@ -77,6 +77,9 @@ namespace Givaro {
             //                     (n)<BOUNDARY_2_isprime ? isprime_Tabule2(n) :
             //                     probab_prime(n));
             int64_t l;
+            // no integer below 2 is prime (a negative n would otherwise be truncated to 32 bits
+            // and looked up in the table, whose padding entries are -1)
+            if (GIVARO_ISLT(n,2)) return 0;
             return int32_t (int32_t(GIVARO_ISLT(n,BOUNDARY_isprime) ?  isprime_Tabule((int32_t)convert(l,n)):
                                     GIVARO_ISLT(n,BOUNDARY_2_isprime) ? isprime_Tabule2((int32_t)convert(l,n)):
                                     local_prime(n,r)));
